@@ -1,23 +1,30 @@
 /-
   C03 — access rules cannot be bypassed by respelling URLs or spoofing the client address.
-  Property theorems only (helper lemmas: LtVerif/Proofs/Access.lean).
+  Property theorems only (helper lemmas: LtVerif/Proofs/Access.lean, Proofs/Extforward.lean; the
+  hypothesis vocabulary `Scope.caseBlind`, `Scope.urlFree`, `Scope.portBlind`, `Passes`,
+  `tokenLike`, `fwdTokensU` is defined in the Model files).
 
-  Reading guide
-    §1  one canonicalisation: every decision is a function of the canonical path
-        (c03_same_resource_same_decision / c03_decode_once)
-    §2  what a served file has passed (c03_served_file_authorised) and its consequences:
-        a file the rules refuse at its own URL is refused under every spelling that resolves
-        to it, incl. trailing path-info (c03_protected_never_served, …_case_sensitive_fs,
-        …_force_lowercase), auth.require prefixes (c03_prefix_monotone,
-        c03_auth_guard_all_spellings)
-    §3  letter case under force-lowercase-filenames (c03_case_fold, c03_case_fold_hook)
-    §4  forwarded client addresses (c03_untrusted_peer_ignored, c03_spoofed_headers_no_effect,
-        c03_xff_last_untrusted, c03_xff_exact, c03_forwarded_walk_safe, c03_forwarded_walk_exact)
-    §5  what the code does NOT guarantee (design limits of lighttpd, each with the witness),
-        and the two repaired defects (walk of the first Forwarded group; CIDR argument order)
+  Reading guide (property clause → theorem)
+    §1  the reference monitor: what a served file has passed, with the client address the request
+        was really attributed to (c03_served_file_authorised); consequences: a file the rules refuse
+        at its own URL is refused under every spelling that resolves to it, incl. trailing path-info
+        (c03_protected_never_served, …_case_sensitive_fs, …_force_lowercase); remoteip-gated rules
+        (c03_remoteip_gate_untrusted_peer, c03_eff_addr_xff); auth.require (c03_prefix_monotone,
+        c03_auth_guard_all_spellings, c03_auth_guard_first_rule)
+    §2  letter case under force-lowercase-filenames (c03_case_fold, c03_icase_byte, c03_case_fold_hook)
+    §3  spellings of the authority inside `$HTTP["host"]` blocks (c03_host_eq_port_tolerant,
+        c03_host_block_every_port_spelling)
+    §4  forwarded client addresses (c03_untrusted_peer_ignored, c03_address_changes_only_for_trusted_peer,
+        c03_spoofed_headers_no_effect, c03_xff_last_untrusted, c03_xff_exact,
+        c03_xff_all_trusted_unchanged, c03_xff_attacker_prefix, c03_forwarded_walk_safe,
+        c03_forwarded_walk_exact, c03_forwarded_capacity_fail_closed)
+    §5  what the code does NOT guarantee (design limits of lighttpd = known findings, each with its
+        witness), the repaired defects, and the one structural statement
+        (c03_same_resource_same_decision_partial)
 -/
 import LtVerif.Proofs.Access
 import LtVerif.Proofs.Extforward
+import LtVerif.Model.Docroot
 namespace LtVerif.C03
 open LtVerif B LtVerif.Access LtVerif.Extforward
 
@@ -29,17 +36,19 @@ def demoFs : Fs := fun p =>
   else if p = [] ∨ p = ofString "/secret" then some .dir
   else none
 
-def demoEnv (u : String) : Env := ⟨ofString u, ofString "h", .v4 [192, 0, 2, 1]⟩
+def demoAddr : Addr := ⟨.v4 [192, 0, 2, 1], ofString "192.0.2.1"⟩
+def demoEnv (u : String) : Env := ⟨ofString u, ofString "h", demoAddr⟩
 def demoTarget (u : String) : Target := ⟨ofString u, ofString u, []⟩
 
-/-- url.access-deny = (".inc", "~"), auth.require = ("/secret/" => …), case-sensitive -/
+/-- url.access-deny = (".inc", "~"), auth.require = ("/secret/" => valid-user), case-sensitive -/
 def demoSrv : Server :=
-  { cfg := [{ scope := .global, deny := some [ofString ".inc", ofString "~"], auth := some [ofString "/secret/"] }],
+  { cfg := [{ scope := .global, deny := some [ofString ".inc", ofString "~"],
+              auth := some [{ pfx := ofString "/secret/" }] }],
     opts := ⟨9567⟩, lc := false, docroot := ofString "/srv", fs := demoFs }
 
 def demoReq : Req :=
   { target := ofString "/secret/./key%2ehtml", host := ofString "h", peer := ofString "192.0.2.1",
-    peerAddr := .v4 [192, 0, 2, 1], hdrs := [], cred := true }
+    peerAddr := .v4 [192, 0, 2, 1], hdrs := [], user := some (ofString "alice") }
 
 /-- extforward.forwarder = ("10.0.0.1" => "trust") -/
 def demoFwd : Forwarder := { entries := [(ofString "10.0.0.1", true)], all := 0, masks := [] }
@@ -53,45 +62,8 @@ def demoSrvIp : Server :=
 /-- a client outside 10/8 that claims to be 10.9.9.9 -/
 def demoSpoof : Req :=
   { target := ofString "/app.php", host := ofString "h", peer := ofString "203.0.113.9",
-    peerAddr := .v4 [203, 0, 113, 9], hdrs := [(ofString "x-forwarded-for", ofString "10.9.9.9")], cred := false }
-
-/-! ## §1 one canonicalisation -/
-
-/-- Two request-targets that `http_request_parse_target()` maps to the same canonical path –
-    under ANY two sets of parse options – get the same decision: same status, same file (or
-    none), same final URL, same client address.  (Percent-encoding, hex case, dot segments,
-    duplicate or encoded slashes, absolute-form, HTTP/1.x vs HTTP/2 only influence the path
-    through `parseTarget`; no module looks at the spelling again.) -/
-theorem c03_same_resource_same_decision (bf : Bool) (parse : Bytes → Option SockAddr) (s : Server)
-    (o₁ o₂ : Opts) (r₁ r₂ : Req) (u₁ u₂ : Target)
-    (h₁ : parseTarget o₁ false r₁.target = .ok u₁) (h₂ : parseTarget o₂ false r₂.target = .ok u₂)
-    (hp : u₁.path = u₂.path)
-    (hh : r₁.host = r₂.host) (hpe : r₁.peer = r₂.peer) (hpa : r₁.peerAddr = r₂.peerAddr)
-    (hhd : r₁.hdrs = r₂.hdrs) (hc : r₁.cred = r₂.cred) :
-    (serve bf parse { s with opts := o₁ } r₁).status = (serve bf parse { s with opts := o₂ } r₂).status ∧
-    (serve bf parse { s with opts := o₁ } r₁).file = (serve bf parse { s with opts := o₂ } r₂).file ∧
-    (serve bf parse { s with opts := o₁ } r₁).uri = (serve bf parse { s with opts := o₂ } r₂).uri ∧
-    (serve bf parse { s with opts := o₁ } r₁).addr = (serve bf parse { s with opts := o₂ } r₂).addr := by
-  unfold serve
-  simp only [h₁, h₂, hp, hh, hpe, hpa, hhd, hc]
-  split
-  · simp
-  · have := serveFrom_indep { s with opts := o₁ } o₂ u₁ u₂
-      { url := u₂.path, host := r₂.host, addr := r₂.peerAddr } r₂.peer r₂.cred
-    exact ⟨this.1, this.2.2.2, this.2.1, this.2.2.1⟩
-  · rename_i a sa _
-    have := serveFrom_indep { s with opts := o₁ } o₂ u₁ u₂
-      { url := u₂.path, host := r₂.host, addr := sa } a r₂.cred
-    exact ⟨this.1, this.2.2.2, this.2.1, this.2.2.1⟩
-
-/-- decode once: the decision is taken on the path as decoded by `parseTarget` and is not
-    decoded again – the response is literally `serveFrom` of that path -/
-theorem c03_decode_once (bf : Bool) (parse : Bytes → Option SockAddr) (s : Server) (r : Req) (t : Target)
-    (h : parseTarget s.opts false r.target = .ok t)
-    (hx : Extforward.remoteAddr bf parse (extConf s.cfg ⟨t.path, r.host, r.peerAddr⟩) r.peer r.hdrs = .unchanged) :
-    serve bf parse s r = serveFrom s t ⟨t.path, r.host, r.peerAddr⟩ r.peer r.cred := by
-  unfold serve
-  simp [h, hx]
+    peerAddr := .v4 [203, 0, 113, 9], hdrs := [(ofString "x-forwarded-for", ofString "10.9.9.9")],
+    user := none }
 
 /-- (canonical path of a request-target, for the examples) -/
 def pathOf (o : Opts) (t : Bytes) : Option Bytes :=
@@ -99,125 +71,186 @@ def pathOf (o : Opts) (t : Bytes) : Option Bytes :=
   | .ok u => some u.path
   | .error _ => none
 
--- non-vacuity: two spellings (dot segments, percent-encoding in both hex cases, duplicate
--- slash) of one path, under the default options
-example : pathOf ⟨9567⟩ (ofString "/a/%2e%2E/secret/./key.html") = some (ofString "/secret/key.html") ∧
-          pathOf ⟨9567⟩ (ofString "/secret//key%2ehtml") = some (ofString "/secret/key.html") := by
-  decide +kernel
-
-/-! ## §2 a protected file is protected under every spelling -/
+/-! ## §1 the reference monitor -/
 
 /-- Reference-monitor theorem.  Whenever a file is sent, then – whatever the spelling of the
     request – the request was 200, the file is the regular file found at the (case-folded)
-    URL that is left after the path-info split, mod_access allowed BOTH the full path and
-    that file's own URL (with the conditional configuration evaluated on that URL), the file
-    is not excluded from static delivery, and if an auth.require rule guards the full path
-    the request carried accepted credentials. -/
+    URL that is left after the path-info split, and with `a` THE address mod_extforward attributed
+    the request to (`effAddr`: the TCP peer's, or what a trusted forwarder reported): mod_access
+    allowed BOTH the full path and that file's own URL (conditional configuration evaluated on
+    that URL, host and `a`), the file is not excluded from static delivery, a path-info is
+    present only if static-file.disable-pathinfo is off, and the auth.require rule that guards
+    the full path (if any) accepts the authenticated user. -/
 theorem c03_served_file_authorised (bf : Bool) (parse : Bytes → Option SockAddr) (s : Server) (r : Req)
     (f : Bytes) (h : (serve bf parse s r).file = some f) :
-    ∃ (t : Target) (a : SockAddr) (n : Nat),
-      parseTarget s.opts false r.target = .ok t ∧ n ≤ t.path.length ∧
+    ∃ (t : Target) (a : Addr) (n : Nat),
+      parseTarget s.opts false r.target = .ok t ∧ effAddr bf parse s r t.path = some a ∧
+      n ≤ t.path.length ∧
       (serve bf parse s r).status = 200 ∧
       (serve bf parse s r).uri = t.path.take (t.path.length - n) ∧
+      (serve bf parse s r).addr = a.text ∧
       f = relPath s.lc (t.path.take (t.path.length - n)) ∧
       s.fs f = some .file ∧
       accessHook s.cfg ⟨t.path, r.host, a⟩ s.lc = true ∧
       accessHook s.cfg ⟨t.path.take (t.path.length - n), r.host, a⟩ s.lc = true ∧
       staticExclude (listOf (setting (·.exclude) s.cfg ⟨t.path.take (t.path.length - n), r.host, a⟩))
         (s.docroot ++ f) = false ∧
-      ((authHook s.cfg ⟨t.path, r.host, a⟩ s.lc).isSome = true → r.cred = true) := by
+      authPass s.cfg ⟨t.path, r.host, a⟩ s.lc r.user = true ∧
+      ((setting (·.noPathinfo) s.cfg ⟨t.path.take (t.path.length - n), r.host, a⟩).getD false = true → n = 0) := by
   unfold serve at h ⊢
   split at h
   · simp at h
   · rename_i t ht
     simp only [ht]
-    cases hx : Extforward.remoteAddr bf parse (extConf s.cfg ⟨t.path, r.host, r.peerAddr⟩) r.peer r.hdrs with
-    | bad => simp [hx] at h
-    | unchanged =>
-      simp only [hx] at h ⊢
-      obtain ⟨n, hn, h1, h2, _, h4, h5, _, h7, h8, h9, h10⟩ := serveFrom_file s t _ _ _ f h
-      exact ⟨t, r.peerAddr, n, rfl, hn, h1, h2, h4, h5, h7, h8, h9, h10⟩
-    | set a sa =>
-      simp only [hx] at h ⊢
-      obtain ⟨n, hn, h1, h2, _, h4, h5, _, h7, h8, h9, h10⟩ := serveFrom_file s t _ _ _ f h
-      exact ⟨t, sa, n, rfl, hn, h1, h2, h4, h5, h7, h8, h9, h10⟩
+    cases ha : effAddr bf parse s r t.path with
+    | none => simp [ha] at h
+    | some a =>
+      simp only [ha] at h ⊢
+      obtain ⟨n, hn, h1, h2, h3, h4, h5, _, h7, h8, h9, h10, h11⟩ := serveFrom_file s t _ _ f h
+      exact ⟨t, a, n, rfl, ha, hn, h1, h2, h3, h4, h5, h7, h8, h9, h10, h11⟩
 
 -- non-vacuity: an encoded, dot-segmented spelling of a guarded file, with credentials
 example : (serve false gaiNumeric demoSrv demoReq).file = some (ofString "/secret/key.html") := by
   decide +kernel
 
-/-- the rules refuse the file at URL `u` for client address `a`: mod_access denies it or
+/-- the rules refuse the file at URL `u` for the client address `a`: mod_access denies it or
     static-file.exclude-extensions lists it -/
-def Refused (s : Server) (host u : Bytes) (a : SockAddr) : Prop :=
+def Refused (s : Server) (host u : Bytes) (a : Addr) : Prop :=
   accessHook s.cfg ⟨u, host, a⟩ s.lc = false ∨
   staticExclude (listOf (setting (·.exclude) s.cfg ⟨u, host, a⟩)) (s.docroot ++ relPath s.lc u) = true
 
-/-- If the rules refuse file `f` at every URL that names it (one URL on a case-sensitive
-    file system, its letter-case variants under force-lowercase-filenames), then NO request
-    – any target, any encoding, any path-info, any protocol, any forwarded header – is
-    answered with that file. -/
+/-- If – for the address the request is really attributed to – the rules refuse file `f` at every
+    URL that names it (one URL on a case-sensitive file system, its letter-case variants under
+    force-lowercase-filenames), then the request is not answered with that file: whatever its
+    target, encoding, path-info, protocol or forwarded headers. -/
 theorem c03_protected_never_served (bf : Bool) (parse : Bytes → Option SockAddr) (s : Server) (r : Req)
-    (f : Bytes) (hprot : ∀ u a, relPath s.lc u = f → Refused s r.host u a) :
+    (f : Bytes)
+    (hprot : ∀ t a u, parseTarget s.opts false r.target = .ok t → effAddr bf parse s r t.path = some a →
+      relPath s.lc u = f → Refused s r.host u a) :
     (serve bf parse s r).file ≠ some f := by
   intro h
-  obtain ⟨t, a, n, _, _, _, _, hf, _, _, hacc, hex, _⟩ := c03_served_file_authorised bf parse s r f h
-  rcases hprot _ a hf.symm with h1 | h1
+  obtain ⟨t, a, n, ht, ha, _, _, _, _, hf, _, _, hacc, hex, _⟩ := c03_served_file_authorised bf parse s r f h
+  rcases hprot t a _ ht ha hf.symm with h1 | h1
   · rw [h1] at hacc; simp at hacc
   · rw [← hf, hex] at h1; simp at h1
 
 /-- case-sensitive file system: it is enough that the rules refuse the file at its own URL -/
 theorem c03_protected_never_served_case_sensitive_fs (bf : Bool) (parse : Bytes → Option SockAddr)
-    (s : Server) (r : Req) (f : Bytes) (hlc : s.lc = false) (hprot : ∀ a, Refused s r.host f a) :
+    (s : Server) (r : Req) (f : Bytes) (hlc : s.lc = false)
+    (hprot : ∀ t a, parseTarget s.opts false r.target = .ok t → effAddr bf parse s r t.path = some a →
+      Refused s r.host f a) :
     (serve bf parse s r).file ≠ some f := by
   apply c03_protected_never_served
-  intro u a hu
+  intro t a u ht ha hu
   simp only [hlc, relPath] at hu
   simp only [Bool.false_eq_true, ↓reduceIte] at hu
   subst hu
-  exact hprot a
+  exact hprot t a ht ha
 
--- non-vacuity: the hypothesis holds for a file that url.access-deny lists
+-- non-vacuity: the hypothesis holds for a file that url.access-deny lists (any address)
 example : demoSrv.lc = false ∧ ∀ a, Refused demoSrv (ofString "h") (ofString "/x.inc") a :=
   ⟨rfl, fun _ => Or.inl rfl⟩
 
-/-- force-lowercase-filenames (case-insensitive file system): if no condition of the
-    configuration compares the URL case-sensitively, it is again enough that the rules
-    refuse the file at its own (lower-case) URL: every letter-case variant, encoded or not,
-    with or without path-info, is refused as well -/
+/-- force-lowercase-filenames (case-insensitive file system): if no block that assigns
+    url.access-allow / url.access-deny / static-file.exclude-extensions compares the URL
+    case-sensitively (other blocks may), it is again enough that the rules refuse the file at
+    its own (lower-case) URL: every letter-case variant, encoded or not, with or without
+    path-info, is refused as well -/
 theorem c03_protected_never_served_force_lowercase (bf : Bool) (parse : Bytes → Option SockAddr)
-    (s : Server) (r : Req) (f : Bytes) (hlc : s.lc = true) (hcb : ∀ b ∈ s.cfg, b.scope.caseBlind)
-    (hf : f.map toLower = f) (hprot : ∀ a, Refused s r.host f a) :
+    (s : Server) (r : Req) (f : Bytes) (hlc : s.lc = true)
+    (hcb : ∀ b ∈ s.cfg, (b.allow.isSome = true ∨ b.deny.isSome = true ∨ b.exclude.isSome = true) →
+      b.scope.caseBlind)
+    (hf : f.map toLower = f)
+    (hprot : ∀ t a, parseTarget s.opts false r.target = .ok t → effAddr bf parse s r t.path = some a →
+      Refused s r.host f a) :
     (serve bf parse s r).file ≠ some f := by
   apply c03_protected_never_served
-  intro u a hu
+  intro t a u ht ha hu
   simp only [hlc, relPath, ↓reduceIte] at hu
   have huf : u.map toLower = f.map toLower := by rw [hu, hf]
   have hset : setting (·.exclude) s.cfg ⟨u, r.host, a⟩ = setting (·.exclude) s.cfg ⟨f, r.host, a⟩ :=
-    setting_congr _ _ _ _ (fun b hb _ => holds_caseBlind _ (hcb b hb) u f r.host a huf)
-  rcases hprot a with h1 | h1
+    setting_congr _ _ _ _ (fun b hb hs => holds_caseBlind _ (hcb b hb (Or.inr (Or.inr hs))) u f r.host a huf)
+  rcases hprot t a ht ha with h1 | h1
   · left
     rw [hlc] at h1 ⊢
-    rw [accessHook_casefold s.cfg hcb u f r.host a huf]
+    rw [accessHook_casefold s.cfg (fun b hb hs => hcb b hb (hs.elim Or.inl (fun x => Or.inr (Or.inl x))))
+          u f r.host a huf]
     exact h1
   · right
     rw [hset]
     simpa [hlc, relPath, hu, hf] using h1
 
--- non-vacuity: a configuration whose only URL condition is a case-insensitive regular
--- expression `$HTTP["url"] =~ "(?i)^/secret/" { url.access-deny = ("") }` (as PCRE2 decides it)
--- satisfies the hypotheses; the lower-case file is refused at its own URL
+-- non-vacuity: a case-insensitive regular expression `$HTTP["url"] =~ "(?i)^/secret/" { url.access-deny
+-- = ("") }` (as PCRE2 decides it) next to a case-SENSITIVE block that assigns nothing relevant
 example :
     let s : Server := { cfg := [{ scope := .global },
-                                { scope := .urlRe false (reCaselessPrefix (ofString "/secret/")), deny := some [[]] }],
+                                { scope := .urlRe false (reCaselessPrefix (ofString "/secret/")), deny := some [[]] },
+                                { scope := .url .prefix_ (ofString "/Other/"), noPathinfo := some true }],
                         opts := ⟨9567⟩, lc := true, docroot := ofString "/srv", fs := demoFs }
-    (∀ b ∈ s.cfg, b.scope.caseBlind) ∧ (ofString "/secret/key.html").map toLower = ofString "/secret/key.html" ∧
+    (∀ b ∈ s.cfg, (b.allow.isSome = true ∨ b.deny.isSome = true ∨ b.exclude.isSome = true) → b.scope.caseBlind) ∧
+    (ofString "/secret/key.html").map toLower = ofString "/secret/key.html" ∧
     ∀ a, Refused s (ofString "h") (ofString "/secret/key.html") a := by
   refine ⟨?_, by decide +kernel, fun _ => Or.inl rfl⟩
-  intro b hb
+  intro b hb hs
   simp only [List.mem_cons, List.not_mem_nil, or_false] at hb
-  rcases hb with rfl | rfl
+  rcases hb with rfl | rfl | rfl
   · trivial
   · exact fun u v h => reCaselessPrefix_fold _ u v h
+  · simp at hs
+
+/-- `$HTTP["remoteip"]`-gated rules, untrusted peer: the address is the TCP peer's, whatever the
+    headers say; so a file refused for the peer's address is never sent to that peer -/
+theorem c03_remoteip_gate_untrusted_peer (bf : Bool) (parse : Bytes → Option SockAddr) (s : Server) (r : Req)
+    (f : Bytes) (hlc : s.lc = false)
+    (hpeer : ∀ t fw, parseTarget s.opts false r.target = .ok t →
+      (extConf s.cfg ⟨t.path, r.host, ⟨r.peerAddr, r.peer⟩⟩).forwarder = some fw →
+      isConnectionTrusted fw r.peer = false)
+    (hprot : Refused s r.host f ⟨r.peerAddr, r.peer⟩) :
+    (serve bf parse s r).file ≠ some f := by
+  apply c03_protected_never_served_case_sensitive_fs bf parse s r f hlc
+  intro t a ht ha
+  unfold effAddr at ha
+  simp only [remoteAddr_untrusted bf parse _ r.peer r.hdrs (fun fw hfw => hpeer t fw ht hfw),
+    Option.some.injEq] at ha
+  subst ha
+  exact hprot
+
+/-- … trusted peer, X-Forwarded-For chain: the address is the right-most element that is not a
+    trusted proxy (text as written in the header, parsed), or the peer's if that does not parse -/
+theorem c03_eff_addr_xff (bf : Bool) (parse : Bytes → Option SockAddr) (s : Server) (r : Req) (path : Bytes)
+    (fw : Forwarder) (name v : Bytes) (pre post : List Bytes) (a : Bytes)
+    (hfw : (extConf s.cfg ⟨path, r.host, ⟨r.peerAddr, r.peer⟩⟩).forwarder = some fw)
+    (hpick : pickHeader (extConf s.cfg ⟨path, r.host, ⟨r.peerAddr, r.peer⟩⟩).headers r.hdrs = some (name, v))
+    (hname : name ≠ ofString "forwarded") (htr : isConnectionTrusted fw r.peer = true)
+    (hc : extractForwardArray v = pre ++ a :: post) (ha : isProxyTrusted fw a = false)
+    (hpost : ∀ x ∈ post, isProxyTrusted fw x = true) :
+    effAddr bf parse s r path =
+      some (match parse a with | some sa => ⟨sa, a⟩ | none => ⟨r.peerAddr, r.peer⟩) := by
+  unfold effAddr remoteAddr
+  simp only [hfw, hpick, htr, Bool.not_true, Bool.false_eq_true, ↓reduceIte, hname]
+  unfold xffAddr
+  rw [hc, lastNotIn_exact fw pre post a ha hpost]
+  unfold setAddr
+  cases hp : parse a <;> simp [hp]
+
+-- non-vacuity: the spoofing client is attributed its own address and refused; the same file is served
+-- to the forwarder's own address
+example : (∀ t fw, parseTarget demoSrvIp.opts false demoSpoof.target = .ok t →
+      (extConf demoSrvIp.cfg ⟨t.path, demoSpoof.host, ⟨demoSpoof.peerAddr, demoSpoof.peer⟩⟩).forwarder = some fw →
+      isConnectionTrusted fw demoSpoof.peer = false) ∧
+    Refused demoSrvIp demoSpoof.host (ofString "/app.php") ⟨demoSpoof.peerAddr, demoSpoof.peer⟩ ∧
+    (serve false gaiNumeric demoSrvIp demoSpoof).status = 403 ∧
+    (serve false gaiNumeric demoSrvIp
+       { demoSpoof with peer := ofString "10.0.0.1", peerAddr := .v4 [10, 0, 0, 1], hdrs := [] }).file
+      = some (ofString "/app.php") := by
+  refine ⟨?_, Or.inl (by decide +kernel), by decide +kernel⟩
+  intro t fw _ hf
+  have h2 : (extConf demoSrvIp.cfg ⟨t.path, demoSpoof.host, ⟨demoSpoof.peerAddr, demoSpoof.peer⟩⟩).forwarder
+      = some demoFwd := rfl
+  rw [h2] at hf
+  have : fw = demoFwd := (Option.some.inj hf).symm
+  subst this
+  decide +kernel
 
 /-- auth.require: a path guarded by a rule stays guarded – by that rule or one listed
     before it – when a path-info (anything) is appended -/
@@ -229,25 +262,30 @@ example : authRule [ofString "/secret/sub/", ofString "/secret/"] (ofString "/se
           authRule [ofString "/secret/sub/", ofString "/secret/"] (ofString "/secret/key.html/x/../y") false = some 1 := by
   decide +kernel
 
-/-- If auth.require is not assigned inside URL conditions and a rule guards the file's own
-    URL, then every request that is answered with the file – any spelling, any letter case
-    under force-lowercase-filenames, any path-info – carried accepted credentials. -/
+/-- If auth.require is not assigned inside URL conditions and rule `i` guards the file's own URL
+    (for the address the request is attributed to), then every request answered with the file –
+    any spelling, any letter case under force-lowercase-filenames, any path-info – was accepted
+    by rule `i` OR BY A RULE LISTED BEFORE IT (mod_auth takes the first prefix match on the path
+    before the path-info split: c03_auth_rule_order_counterexample shows that the earlier rule can
+    be a weaker one). -/
 theorem c03_auth_guard_all_spellings (bf : Bool) (parse : Bytes → Option SockAddr) (s : Server) (r : Req)
     (f : Bytes) (hfree : ∀ b ∈ s.cfg, b.auth.isSome = true → b.scope.urlFree)
     (hf : s.lc = true → f.map toLower = f)
-    (hguard : ∀ a, (authHook s.cfg ⟨f, r.host, a⟩ s.lc).isSome = true)
-    (h : (serve bf parse s r).file = some f) : r.cred = true := by
-  obtain ⟨t, a, n, _, hn, _, _, hfu, _, _, _, _, hauth⟩ := c03_served_file_authorised bf parse s r f h
-  apply hauth
+    (h : (serve bf parse s r).file = some f) :
+    ∃ t a, parseTarget s.opts false r.target = .ok t ∧ effAddr bf parse s r t.path = some a ∧
+      ∀ i, authHook s.cfg ⟨f, r.host, a⟩ s.lc = some i →
+        ∃ j rule, j ≤ i ∧ (authRules s.cfg ⟨f, r.host, a⟩)[j]? = some rule ∧ rule.accepts r.user = true := by
+  obtain ⟨t, a, n, ht, ha, hn, _, _, _, hfu, _, _, _, _, hauth, _⟩ := c03_served_file_authorised bf parse s r f h
+  refine ⟨t, a, ht, ha, ?_⟩
+  intro i hi
   have hset : setting (·.auth) s.cfg ⟨t.path, r.host, a⟩ = setting (·.auth) s.cfg ⟨f, r.host, a⟩ :=
     setting_congr _ _ _ _ (fun b hb hs => holds_urlFree _ (hfree b hb hs) _ _ _ _)
-  have hg := hguard a
-  unfold authHook at hg ⊢
-  simp only [hset]
-  simp only at hg
-  obtain ⟨i, hi⟩ := Option.isSome_iff_exists.1 hg
+  have hrules : authRules s.cfg ⟨t.path, r.host, a⟩ = authRules s.cfg ⟨f, r.host, a⟩ := by
+    unfold authRules; rw [hset]
+  unfold authHook at hi
+  simp only at hi
   -- the rule that guards `f` also guards the split URL …
-  have hu : authRule (listOf (setting (·.auth) s.cfg ⟨f, r.host, a⟩))
+  have hu : authRule ((authRules s.cfg ⟨f, r.host, a⟩).map (·.pfx))
       (t.path.take (t.path.length - n)) s.lc = some i := by
     cases hlc : s.lc with
     | false =>
@@ -259,21 +297,43 @@ theorem c03_auth_guard_all_spellings (bf : Bool) (parse : Bytes → Option SockA
       simp only [relPath, ↓reduceIte] at hfu
       rw [authRule_casefold _ (t.path.take (t.path.length - n)) f (by rw [← hfu, hf hlc])]
       exact hi
-  -- … and the full path, which extends it by the path-info
-  obtain ⟨j, _, hj⟩ := authRule_append _ _ (t.path.drop (t.path.length - n)) _ _ hu
+  -- … and the full path, which extends it by the path-info, is guarded by it or an earlier one
+  obtain ⟨j, hji, hj⟩ := authRule_append _ _ (t.path.drop (t.path.length - n)) _ _ hu
   rw [List.take_append_drop] at hj
-  simp [hj]
+  unfold authPass authHook at hauth
+  simp only [hrules, hj] at hauth
+  cases hr : (authRules s.cfg ⟨f, r.host, a⟩)[j]? with
+  | none => simp [hr] at hauth
+  | some rule =>
+    simp only [hr] at hauth
+    exact ⟨j, rule, hji, hr, hauth⟩
 
--- non-vacuity: the hypotheses hold for the guarded file of the example configuration
+/-- … in particular, if the guarding rule is the first one listed, it is that rule that accepted -/
+theorem c03_auth_guard_first_rule (bf : Bool) (parse : Bytes → Option SockAddr) (s : Server) (r : Req)
+    (f : Bytes) (hfree : ∀ b ∈ s.cfg, b.auth.isSome = true → b.scope.urlFree)
+    (hf : s.lc = true → f.map toLower = f)
+    (h : (serve bf parse s r).file = some f) :
+    ∃ t a, parseTarget s.opts false r.target = .ok t ∧ effAddr bf parse s r t.path = some a ∧
+      (authHook s.cfg ⟨f, r.host, a⟩ s.lc = some 0 →
+        ∃ rule, (authRules s.cfg ⟨f, r.host, a⟩)[0]? = some rule ∧ rule.accepts r.user = true) := by
+  obtain ⟨t, a, ht, ha, hall⟩ := c03_auth_guard_all_spellings bf parse s r f hfree hf h
+  refine ⟨t, a, ht, ha, fun h0 => ?_⟩
+  obtain ⟨j, rule, hj, hr, hacc⟩ := hall 0 h0
+  have : j = 0 := by omega
+  subst this
+  exact ⟨rule, hr, hacc⟩
+
+-- non-vacuity: the hypotheses hold for the guarded file of the example configuration, whose rule 0
+-- guards it for every address
 example : (∀ b ∈ demoSrv.cfg, b.auth.isSome = true → b.scope.urlFree) ∧
-          (∀ a, (authHook demoSrv.cfg ⟨ofString "/secret/key.html", ofString "h", a⟩ demoSrv.lc).isSome = true) := by
+          (∀ a, authHook demoSrv.cfg ⟨ofString "/secret/key.html", ofString "h", a⟩ demoSrv.lc = some 0) := by
   refine ⟨?_, fun _ => rfl⟩
   intro b hb _
   simp [demoSrv] at hb
   subst hb
   trivial
 
-/-! ## §3 letter case under force-lowercase-filenames -/
+/-! ## §2 letter case under force-lowercase-filenames -/
 
 /-- mod_access_check() and the auth.require lookup under force-lowercase-filenames depend on
     the lower-cased path only; the check equals the plain (case-sensitive) check on
@@ -296,11 +356,67 @@ example : eqIcaseByte 64 96 = false ∧ eqIcaseByte 91 123 = false ∧ eqIcaseBy
           eqIcaseByte 65 97 = true := by decide +kernel
 
 /-- the whole mod_access hook (conditional configuration included) looks at the lower-cased
-    URL only, if no condition compares the URL case-sensitively -/
-theorem c03_case_fold_hook (cfg : List Block) (hcb : ∀ b ∈ cfg, b.scope.caseBlind)
-    (u v h : Bytes) (a : SockAddr) (huv : u.map toLower = v.map toLower) :
+    URL only, if no block that assigns allow / deny compares the URL case-sensitively -/
+theorem c03_case_fold_hook (cfg : List Block)
+    (hcb : ∀ b ∈ cfg, (b.allow.isSome = true ∨ b.deny.isSome = true) → b.scope.caseBlind)
+    (u v h : Bytes) (a : Addr) (huv : u.map toLower = v.map toLower) :
     accessHook cfg ⟨u, h, a⟩ true = accessHook cfg ⟨v, h, a⟩ true :=
   accessHook_casefold cfg hcb u v h a huv
+
+-- non-vacuity: the hypothesis for a nested `$HTTP["host"] == "h" { $HTTP["url"] =~ "(?i)\.inc$" { deny } }`
+example : ∀ b ∈ [({ scope := .global } : Block),
+                 { scope := .both (.host .eq (ofString "h")) (.urlRe false (reCaselessSuffix (ofString ".inc"))),
+                   deny := some [[]] }],
+    (b.allow.isSome = true ∨ b.deny.isSome = true) → b.scope.caseBlind := by
+  intro b hb _
+  simp only [List.mem_cons, List.not_mem_nil, or_false] at hb
+  rcases hb with rfl | rfl
+  · trivial
+  · exact ⟨trivial, fun u v h => reCaselessSuffix_fold _ u v h⟩
+
+/-! ## §3 spellings of the authority -/
+
+/-- `$HTTP["host"] == "name"` (configured without a port) holds for the authority `name` and for
+    `name:port` with any port of up to five digits, and for no other `other:port` – the
+    port-tolerant comparison of config_check_cond_nocache_eval() (C14's `Cond.eqLike`) -/
+theorem c03_host_eq_port_tolerant (s n port : Bytes) (hs : colon ∉ s) (hn : colon ∉ n) (hp : colon ∉ port)
+    (hsl : s.head? ≠ some slash) (hlen : port.length ≤ 5) :
+    hostEq s (n ++ colon :: port) = (n == s) ∧ hostEq s n = (n == s) :=
+  ⟨hostEq_port s n port hs hn hp hsl hlen, hostEq_plain s n hs hn⟩
+
+example : hostEq (ofString "intranet.example") (ofString "intranet.example:65535") = true ∧
+          hostEq (ofString "intranet.example") (ofString "intranet.example:8") = true ∧
+          hostEq (ofString "intranet.example") (ofString "intranet.example:655350") = false := by
+  decide +kernel
+
+/-- A protection inside `$HTTP["host"]` blocks is the same for every port spelling of the
+    authority: if the host conditions of the configuration are `==` / `!=` against names without
+    port, or regular expressions that allow for a port (`portBlind`; nesting and else-chains
+    included), then the request with authority `name:port` gets exactly the response of the
+    request with authority `name` – and mod_simple_vhost maps both to the same document root
+    (it cuts the authority at the first ':'), so they do reach the same resource. -/
+theorem c03_host_block_every_port_spelling (bf : Bool) (parse : Bytes → Option SockAddr) (s : Server) (r : Req)
+    (port : Bytes) (hpb : ∀ b ∈ s.cfg, b.scope.portBlind) (hn : colon ∉ r.host) (hp : colon ∉ port)
+    (hlen : port.length ≤ 5) (sroot : Bytes) (droot : Option Bytes) :
+    serve bf parse s { r with host := r.host ++ colon :: port } = serve bf parse s r ∧
+    svhostPath sroot (some (r.host ++ colon :: port)) droot = svhostPath sroot (some r.host) droot := by
+  refine ⟨serve_host_congr bf parse s r _
+            (fun b hb u a => holds_portBlind _ (hpb b hb) u r.host port a hn hp hlen), ?_⟩
+  simp only [svhostPath, hostPart_port r.host port hn, hostPart_plain r.host hn]
+
+-- non-vacuity: `$HTTP["host"] == "intranet.example" { url.access-deny = ("") }`, nested url block
+example : ∀ b ∈ [({ scope := .global } : Block),
+                 { scope := .host .eq (ofString "intranet.example"), deny := some [[]] },
+                 { scope := .both (.host .eq (ofString "intranet.example")) (.url .prefix_ (ofString "/x")) },
+                 { scope := .non (.host .eq (ofString "intranet.example")), auth := some [] }],
+    b.scope.portBlind := by
+  intro b hb
+  simp only [List.mem_cons, List.not_mem_nil, or_false] at hb
+  rcases hb with rfl | rfl | rfl | rfl
+  · trivial
+  · exact ⟨by decide +kernel, by decide +kernel⟩
+  · exact ⟨⟨by decide +kernel, by decide +kernel⟩, trivial⟩
+  · exact ⟨by decide +kernel, by decide +kernel⟩
 
 /-! ## §4 forwarded client addresses -/
 
@@ -310,6 +426,9 @@ theorem c03_untrusted_peer_ignored (bf : Bool) (parse : Bytes → Option SockAdd
     (hdrs : List (Bytes × Bytes)) (h : ∀ f, c.forwarder = some f → isConnectionTrusted f peer = false) :
     remoteAddr bf parse c peer hdrs = .unchanged :=
   remoteAddr_untrusted bf parse c peer hdrs h
+
+example : isConnectionTrusted demoFwd (ofString "203.0.113.9") = false ∧
+          isConnectionTrusted demoFwd (ofString "10.0.0.1") = true := by decide +kernel
 
 /-- … and conversely the address only ever changes for a trusted peer, to an address that
     parses -/
@@ -343,37 +462,25 @@ theorem c03_address_changes_only_for_trusted_peer (bf : Bool) (parse : Bytes →
             exact xffAddr_set parse f _ _ _ hx
       · simp [ht] at h
 
+example : remoteAddr false gaiNumeric { forwarder := some demoFwd, headers := defaultHeaders }
+            (ofString "10.0.0.1") [(ofString "x-forwarded-for", ofString "198.51.100.7")]
+          = .set (ofString "198.51.100.7") (.v4 [198, 51, 100, 7]) := by decide +kernel
+
 /-- End to end: for a request from an untrusted peer the whole response is independent of
     the forwarded headers it carries (they can be replaced by anything). -/
 theorem c03_spoofed_headers_no_effect (bf : Bool) (parse : Bytes → Option SockAddr) (s : Server) (r : Req)
     (hdrs' : List (Bytes × Bytes))
     (h : ∀ t f, parseTarget s.opts false r.target = .ok t →
-      (extConf s.cfg ⟨t.path, r.host, r.peerAddr⟩).forwarder = some f → isConnectionTrusted f r.peer = false) :
+      (extConf s.cfg ⟨t.path, r.host, ⟨r.peerAddr, r.peer⟩⟩).forwarder = some f →
+      isConnectionTrusted f r.peer = false) :
     serve bf parse s r = serve bf parse s { r with hdrs := hdrs' } := by
-  unfold serve
+  unfold serve effAddr
   cases ht : parseTarget s.opts false r.target with
   | error e => rfl
   | ok t =>
     simp only
     rw [remoteAddr_untrusted bf parse _ r.peer r.hdrs (fun f hf => h t f ht hf),
         remoteAddr_untrusted bf parse _ r.peer hdrs' (fun f hf => h t f ht hf)]
-
--- non-vacuity: the hypothesis holds for the spoofing client (which is refused), while the
--- same request from the trusted forwarder's own address is served
-example : (∀ t f, parseTarget demoSrvIp.opts false demoSpoof.target = .ok t →
-      (extConf demoSrvIp.cfg ⟨t.path, demoSpoof.host, demoSpoof.peerAddr⟩).forwarder = some f →
-      isConnectionTrusted f demoSpoof.peer = false) ∧
-    (serve false gaiNumeric demoSrvIp demoSpoof).status = 403 ∧
-    (serve false gaiNumeric demoSrvIp
-       { demoSpoof with peer := ofString "10.0.0.1", peerAddr := .v4 [10, 0, 0, 1], hdrs := [] }).file
-      = some (ofString "/app.php") := by
-  refine ⟨?_, by decide +kernel⟩
-  intro t f _ hf
-  have h2 : (extConf demoSrvIp.cfg ⟨t.path, demoSpoof.host, demoSpoof.peerAddr⟩).forwarder = some demoFwd := rfl
-  rw [h2] at hf
-  have : f = demoFwd := (Option.some.inj hf).symm
-  subst this
-  decide +kernel
 
 /-- X-Forwarded-For from a trusted peer: the address taken is an element of the chain that
     is not a trusted proxy, everything to its right is a trusted proxy, and it parses -/
@@ -382,17 +489,13 @@ theorem c03_xff_last_untrusted (parse : Bytes → Option SockAddr) (f : Forwarde
     parse a = some sa ∧ isProxyTrusted f a = false ∧
       ∃ pre post, extractForwardArray hdr = pre ++ a :: post ∧ ∀ x ∈ post, isProxyTrusted f x = true := by
   unfold xffAddr at h
-  split at h
-  · rename_i a0 hl
-    unfold setAddr at h
-    split at h
-    · rename_i sa0 hp
-      simp only [Option.some.injEq, Prod.mk.injEq] at h
-      obtain ⟨rfl, rfl⟩ := h
-      obtain ⟨h1, h2⟩ := lastNotIn_some f _ _ hl
-      exact ⟨hp, h1, h2⟩
-    · simp at h
-  · simp at h
+  cases hl : lastNotIn f (extractForwardArray hdr) with
+  | none => simp [hl] at h
+  | some a0 =>
+    simp only [hl] at h
+    obtain ⟨rfl, hp⟩ := setAddr_some parse a0 a sa h
+    obtain ⟨h1, h2⟩ := lastNotIn_some f _ _ hl
+    exact ⟨hp, h1, h2⟩
 
 /-- … exactly that element (the right-most one that is not a trusted proxy); unchanged if it
     does not parse … -/
@@ -411,15 +514,31 @@ theorem c03_xff_all_trusted_unchanged (parse : Bytes → Option SockAddr) (f : F
   unfold xffAddr
   rw [(lastNotIn_none f _).2 h]
 
--- non-vacuity: forwarder 10.0.0.1 and 10.1.0.0/16; chain client, attacker-visible hop, two proxies
+/-- Attacker-chosen prefix, byte level: whatever bytes `P` the client put into X-Forwarded-For
+    (quotes, separators, pseudo addresses, anything), the element the trusted proxy appends after
+    ", " is the last token of the chain; if it is not itself a trusted proxy it IS the result. -/
+theorem c03_xff_attacker_prefix (parse : Bytes → Option SockAddr) (f : Forwarder) (P a : Bytes)
+    (ht : tokenLike a) (hu : isProxyTrusted f a = false) :
+    xffAddr parse f (P ++ [44, 32] ++ a) = (parse a).map (fun sa => (a, sa)) :=
+  c03_xff_exact parse f _ (extractForwardArray P) [] a (by rw [extract_append P a ht]) hu (by simp)
+
+-- non-vacuity: forwarder 10.0.0.1 and 10.1.0.0/16; chain client, attacker-visible hop, two proxies;
+-- an all-trusted chain; a textual prefix full of junk
 example :
     (parseForwarder [(ofString "10.0.0.1", ofString "trust"), (ofString "10.1.0.0/16", ofString "trust")]).map
-      (fun f => (xffAddr gaiNumeric f (ofString "6.6.6.6, 203.0.113.9, 10.1.2.3, 10.0.0.1")).map (·.1))
-    = some (some (ofString "203.0.113.9")) := by decide +kernel
+      (fun f => ((xffAddr gaiNumeric f (ofString "6.6.6.6, 203.0.113.9, 10.1.2.3, 10.0.0.1")).map (·.1),
+                 (xffAddr gaiNumeric f (ofString "10.1.2.3, 10.0.0.1")).map (·.1),
+                 (xffAddr gaiNumeric f (ofString "\"10.0.0.1, ;for=::1\\ ,,10.9.9.9., 203.0.113.9")).map (·.1)))
+    = some (some (ofString "203.0.113.9"), none, some (ofString "203.0.113.9")) := by decide +kernel
+
+example : tokenLike (ofString "203.0.113.9") :=
+  ⟨⟨50, ofString "03.0.113.9", rfl, rfl⟩, by decide +kernel⟩
 
 /-- Forwarded from a trusted peer, safety: the identifier the walk returns is the for= value
     of one of the proxies, usable as an address, and every proxy to its right in the header
-    reported a trusted identifier (or none): an untrusted hop is never skipped. -/
+    reported a trusted identifier (or none): an untrusted hop is never skipped.  (The result
+    itself need not be untrusted: by design an untrusted hop that only gives an obfuscated
+    identifier – `_x`, `unknown` – ends the walk at the previous, trusted, one.) -/
 theorem c03_forwarded_walk_safe (f : Forwarder) (hdr : Bytes) (items : List Item) (a : Bytes)
     (h : fwdWalk f hdr items = .addr (some a)) :
     ∃ pre g post, (groups items).reverse = pre ++ g :: post ∧ (∀ g' ∈ pre, Passes f hdr g') ∧
@@ -440,19 +559,45 @@ theorem c03_forwarded_walk_exact (f : Forwarder) (hdr : Bytes) (items : List Ite
   rw [hg]
   exact fwdWalk_exact f hdr pre g post none a hpre hv hne hu hnt
 
+/-- Capacity of offsets[256], fail closed: whenever a Forwarded header is NOT answered with 400,
+    the bounded tokenizer produced exactly the token list of the unbounded specification
+    `fwdTokensU` – the walk never runs on a truncated list (so params in front cannot push the
+    element appended by the trusted proxy out of sight). -/
+theorem c03_forwarded_capacity_fail_closed (bf : Bool) (parse : Bytes → Option SockAddr) (f : Forwarder)
+    (hdr : Bytes) (h : forwardedAddr bf parse f hdr ≠ .bad) :
+    ∃ items, fwdTokens hdr = .ok items ∧ fwdTokensU hdr = .ok items := by
+  unfold forwardedAddr at h
+  cases ht : fwdTokens hdr with
+  | bad => simp [ht] at h
+  | ok items =>
+    simp only [ht] at h
+    by_cases hs : slots items ≥ 253
+    · simp [hs] at h
+    · exact ⟨items, rfl, fwdTokGo_complete hdr _ 0 [] items ht (by omega)⟩
+
 -- non-vacuity (and the case the repaired defect D9 got wrong): a single for=, and a chain
--- whose answer is the first element
+-- whose answer is the first element; 63 params in front of the proxy's element are rejected
 example :
     (parseForwarder [(ofString "10.0.0.1", ofString "trust")]).map (fun f =>
       (forwardedAddr false gaiNumeric f (ofString "for=1.2.3.4"),
-       forwardedAddr false gaiNumeric f (ofString "for=\"[2001:db8::7]:4711\";proto=https, For=10.0.0.1")))
+       forwardedAddr false gaiNumeric f (ofString "for=\"[2001:db8::7]:4711\";proto=https, For=10.0.0.1"),
+       forwardedAddr false gaiNumeric f
+         ((List.replicate 62 (ofString "p=v;")).flatten ++ ofString "for=10.9.9.9, for=203.0.113.7")))
     = some (.set (ofString "1.2.3.4") (.v4 [1, 2, 3, 4]),
-            .set (ofString "2001:db8::7") (.v6 [0x20, 1, 0xd, 0xb8, 0, 0, 0, 0, 0, 0, 0, 0, 0, 0, 0, 7])) := by
+            .set (ofString "2001:db8::7") (.v6 [0x20, 1, 0xd, 0xb8, 0, 0, 0, 0, 0, 0, 0, 0, 0, 0, 0, 7]),
+            .bad) := by
   decide +kernel
 
-/-! ## §5 what is NOT guaranteed, and the repaired defects -/
+-- non-vacuity of the two walk theorems on a tokenised header: the second proxy is the answer
+example :
+    (match fwdTokens (ofString "for=203.0.113.7, for=10.0.0.1") with
+     | .ok items => some (fwdWalk demoFwd (ofString "for=203.0.113.7, for=10.0.0.1") items,
+                          (groups items).reverse.length)
+     | .bad => none) = some (.addr (some (ofString "203.0.113.7")), 2) := by decide +kernel
 
-/-- Design limit 1: `$HTTP["url"]` conditions are case-sensitive also under
+/-! ## §5 what is NOT guaranteed, the repaired defects, the structural statement -/
+
+/-- Design limit L2 (known finding KF3): `$HTTP["url"]` conditions are case-sensitive also under
     force-lowercase-filenames.  With `$HTTP["url"] =^ "/secret/" { url.access-deny = ("") }`
     the file /secret/key.html is refused at its own URL but sent for /SECRET/key.html.
     (Hence the hypothesis `caseBlind` of c03_protected_never_served_force_lowercase; a
@@ -460,35 +605,58 @@ example :
 theorem c03_url_cond_case_sensitive :
     let s : Server := { cfg := [{ scope := .global }, { scope := .url .prefix_ (ofString "/secret/"), deny := some [[]] }],
                         opts := ⟨9567⟩, lc := true, docroot := ofString "/srv", fs := demoFs }
-    (serveFrom s (demoTarget "/secret/key.html") (demoEnv "/secret/key.html") [] false).status = 403 ∧
-    (serveFrom s (demoTarget "/SECRET/key.html") (demoEnv "/SECRET/key.html") [] false).file
+    (serveFrom s (demoTarget "/secret/key.html") (demoEnv "/secret/key.html") none).status = 403 ∧
+    (serveFrom s (demoTarget "/SECRET/key.html") (demoEnv "/SECRET/key.html") none).file
       = some (ofString "/secret/key.html") := by
   decide +kernel
 
-/-- Design limit 2: mod_auth runs before the path-info split only, so a condition that
-    selects by the END of the URL does not guard auth.require against trailing path-info:
-    with `$HTTP["url"] =$ ".php" { auth.require = ("" => …) }` /app.php asks for credentials
-    but /app.php/x is served.  (Hence the hypothesis `urlFree` of c03_auth_guard_all_spellings;
-    url.access-deny inside the same condition IS re-checked: c03_served_file_authorised.) -/
-theorem c03_auth_suffix_cond_partial :
-    let s : Server := { cfg := [{ scope := .global }, { scope := .url .suffix (ofString ".php"), auth := some [[]] }],
+/- Planned (DESIGN round 0) `c03_auth_suffix_cond`: "a resource guarded by auth.require inside an
+   end-anchored `$HTTP["url"]` condition is guarded for every spelling incl. trailing path-info".
+   This is FALSE of the code (next theorem).  The part that holds is c03_auth_guard_all_spellings:
+   auth.require assigned outside URL conditions (`urlFree`). -/
+
+/-- Design limit L3 (known finding KF4): mod_auth runs before the path-info split only, so a
+    condition that selects by the END of the URL does not guard auth.require against trailing
+    path-info: with `$HTTP["url"] =$ ".php" { auth.require = ("" => …) }` /app.php asks for
+    credentials but /app.php/x is served.  (url.access-deny inside the same condition IS
+    re-checked after the split: c03_served_file_authorised.) -/
+theorem c03_auth_suffix_cond_counterexample :
+    let s : Server := { cfg := [{ scope := .global },
+                                { scope := .url .suffix (ofString ".php"), auth := some [{ pfx := [] }] }],
                         opts := ⟨9567⟩, lc := false, docroot := ofString "/srv", fs := demoFs }
-    (serveFrom s (demoTarget "/app.php") (demoEnv "/app.php") [] false).status = 401 ∧
-    (serveFrom s (demoTarget "/app.php/x") (demoEnv "/app.php/x") [] false).file = some (ofString "/app.php") := by
+    (serveFrom s (demoTarget "/app.php") (demoEnv "/app.php") none).status = 401 ∧
+    (serveFrom s (demoTarget "/app.php/x") (demoEnv "/app.php/x") none).file = some (ofString "/app.php") := by
   decide +kernel
 
-/-- Design limit 3: conditions are matched by PCRE2 in UTF mode; a URL that is not well-formed
-    UTF-8 (a stray %80 is accepted by the default parse options) matches NO regular
+/-- Design limit L3, second form (same known finding): the guarding rule is the FIRST prefix match
+    on the path before the split, so an earlier, weaker rule whose prefix reaches into a
+    path-info guards that spelling instead of the stricter rule of the file: with
+    `auth.require = ("/secret/key.html/pub" => valid-user, "/secret/" => user=admin)` user alice
+    gets 401 for /secret/key.html but the file for /secret/key.html/pub.  (This is why
+    c03_auth_guard_all_spellings can only conclude "rule i or an earlier one".) -/
+theorem c03_auth_rule_order_counterexample :
+    let s : Server := { cfg := [{ scope := .global,
+                                  auth := some [{ pfx := ofString "/secret/key.html/pub" },
+                                                { pfx := ofString "/secret/", users := some [ofString "admin"] }] }],
+                        opts := ⟨9567⟩, lc := false, docroot := ofString "/srv", fs := demoFs }
+    (serveFrom s (demoTarget "/secret/key.html") (demoEnv "/secret/key.html") (some (ofString "alice"))).status = 401 ∧
+    (serveFrom s (demoTarget "/secret/key.html/pub") (demoEnv "/secret/key.html/pub")
+       (some (ofString "alice"))).file = some (ofString "/secret/key.html") := by
+  decide +kernel
+
+/-- Design limit L1 (known finding KF2): conditions are matched by PCRE2 in UTF mode; a URL that is
+    not well-formed UTF-8 (a stray %80 is accepted by the default parse options) matches NO regular
     expression.  So even a prefix expression does not guard auth.require against a path-info
     with such a byte: with `$HTTP["url"] =~ "(?i)^/secret/" { auth.require = … }`
     /secret/key.html asks for credentials, /secret/key.html/%80 is served. -/
 theorem c03_regex_cond_invalid_utf8 :
     let s : Server := { cfg := [{ scope := .global },
-                                { scope := .urlRe false (reCaselessPrefix (ofString "/secret/")), auth := some [[]] }],
+                                { scope := .urlRe false (reCaselessPrefix (ofString "/secret/")),
+                                  auth := some [{ pfx := [] }] }],
                         opts := ⟨9567⟩, lc := false, docroot := ofString "/srv", fs := demoFs }
-    (serveFrom s (demoTarget "/secret/key.html") (demoEnv "/secret/key.html") [] false).status = 401 ∧
+    (serveFrom s (demoTarget "/secret/key.html") (demoEnv "/secret/key.html") none).status = 401 ∧
     (serveFrom s ⟨ofString "/secret/key.html/%80", ofString "/secret/key.html/" ++ [0x80], []⟩
-       ⟨ofString "/secret/key.html/" ++ [0x80], ofString "h", .v4 [192, 0, 2, 1]⟩ [] false).file
+       ⟨ofString "/secret/key.html/" ++ [0x80], ofString "h", demoAddr⟩ none).file
       = some (ofString "/secret/key.html") := by
   decide +kernel
 
@@ -515,6 +683,41 @@ theorem c03_cidr_argument_order_before_fix :
                  isProxyTrustedOrd true f (ofString "::ffff:10.1.2.3"),
                  (xffAddr gaiNumeric f (ofString "6.6.6.6, ::ffff:203.0.113.9")).map (·.1)))
     = some (true, false, true, some (ofString "::ffff:203.0.113.9")) := by
+  decide +kernel
+
+/-- STRUCTURAL (hence `_partial`): two request-targets that `parseTarget` maps to the same
+    canonical path – under any two sets of parse options – get the same status, file, final URL
+    and client address.  This holds by the shape of the model (`serveFrom` receives the spelling
+    only for PATH_INFO's letter case); its behavioural content – that no module of the real
+    server looks at the spelling again – is established by the `srv` correspondence (real
+    plugin dispatch, both protocol entries, every parse-option profile), not by this theorem.
+    What is missing for the full clause: that the listed respellings (percent-encoding, hex case,
+    dot segments, duplicate/encoded slashes, NUL/control bytes, composed to any depth) DO yield
+    the same canonical path – C02's subject for `pathSimplify`; for `burl_normalize` it is
+    carried by the C02/C03 correspondence and by C03's independent decode-once oracle only. -/
+theorem c03_same_resource_same_decision_partial (bf : Bool) (parse : Bytes → Option SockAddr) (s : Server)
+    (o₁ o₂ : Opts) (r₁ r₂ : Req) (u₁ u₂ : Target)
+    (h₁ : parseTarget o₁ false r₁.target = .ok u₁) (h₂ : parseTarget o₂ false r₂.target = .ok u₂)
+    (hp : u₁.path = u₂.path)
+    (hh : r₁.host = r₂.host) (hpe : r₁.peer = r₂.peer) (hpa : r₁.peerAddr = r₂.peerAddr)
+    (hhd : r₁.hdrs = r₂.hdrs) (hc : r₁.user = r₂.user) :
+    (serve bf parse { s with opts := o₁ } r₁).status = (serve bf parse { s with opts := o₂ } r₂).status ∧
+    (serve bf parse { s with opts := o₁ } r₁).file = (serve bf parse { s with opts := o₂ } r₂).file ∧
+    (serve bf parse { s with opts := o₁ } r₁).uri = (serve bf parse { s with opts := o₂ } r₂).uri ∧
+    (serve bf parse { s with opts := o₁ } r₁).addr = (serve bf parse { s with opts := o₂ } r₂).addr := by
+  unfold serve effAddr
+  simp only [h₁, h₂, hp, hh, hpe, hpa, hhd, hc]
+  split
+  · simp
+  · rename_i a _
+    have := serveFrom_indep { s with opts := o₁ } o₂ u₁ u₂
+      { url := u₂.path, host := r₂.host, addr := a } r₂.user
+    exact ⟨this.1, this.2.2.2, this.2.1, this.2.2.1⟩
+
+-- non-vacuity: two spellings (dot segments, percent-encoding in both hex cases, duplicate
+-- slash) of one path, under the default options
+example : pathOf ⟨9567⟩ (ofString "/a/%2e%2E/secret/./key.html") = some (ofString "/secret/key.html") ∧
+          pathOf ⟨9567⟩ (ofString "/secret//key%2ehtml") = some (ofString "/secret/key.html") := by
   decide +kernel
 
 end LtVerif.C03
